@@ -147,7 +147,64 @@ def baseline_opens(kp):
     return _baseline_opens[kp]
 
 
+# ---- accessor layer (kind "ctx"): every CgroupContext accessor x every control file x every fault state ----------------
+
+CTX_FILES = ["memory.current", "memory.swap.current", "memory.swap.max", "memory.low", "memory.min", "memory.high",
+             "memory.high.tmp", "memory.max", "memory.stat", "cgroup.stat", "cgroup.events", "memory.oom.group",
+             "memory.pressure", "io.pressure", "io.stat"]
+
+
+def ctx_cgroup(mem, low="0", mn="0", swapmax="max"):
+    return {"cgroup.controllers": "cpu io memory pids\n", "memory.current": "%d\n" % mem, "memory.swap.current": "%d\n" % (mem // 4),
+            "memory.swap.max": swapmax + "\n", "memory.low": low + "\n", "memory.min": mn + "\n", "memory.high": "max\n",
+            "memory.high.tmp": "max 0\n", "memory.max": "max\n",
+            "memory.stat": "anon %d\nfile %d\nshmem 0\npgscan 1000\n" % (mem // 2, mem // 2),
+            "cgroup.stat": "nr_descendants 0\nnr_dying_descendants 3\n", "cgroup.events": "populated 1\nfrozen 0\n",
+            "memory.oom.group": "0\n", "memory.pressure": psi(), "io.pressure": psi(),
+            "io.stat": "8:0 rbytes=1000 wbytes=2000 rios=30 wios=40 dbytes=0 dios=0\n"}
+
+
+def ctx_world(protected):
+    """root / {A / {B / {C}, S}, T}; with `protected` the memory.low / memory.min values make every protection sum non-zero"""
+    lo = "4096" if protected else "0"
+    return {"A": ctx_cgroup(1 << 30, low=lo), "A/B": ctx_cgroup(1 << 29, low=lo, swapmax="1073741824"),
+            "A/S": ctx_cgroup(1 << 28, mn=lo), "A/B/C": ctx_cgroup(1 << 27, low=lo, swapmax="0" if not protected else "4096"),
+            "T": ctx_cgroup(1 << 26, low=lo)}
+
+
+def gen_ctx(rng, tier):
+    for protected in (True, False):
+        w = ctx_world(protected)
+        for target in ("A/B/C", "A/B", "A"):
+            yield {"kind": "ctx", "cgroups": w, "target": target, "faults": [], "ticks": 2}
+            # every single fault on the target, each ancestor and each sibling the accessors sum over
+            reach = [c for c in w if c == target or target.startswith(c + "/") or
+                     any(c.rsplit("/", 1)[0] == a.rsplit("/", 1)[0] and "/" in c and "/" in a or ("/" not in c and "/" not in a)
+                         for a in [target] + [target.rsplit("/", k)[0] for k in range(1, target.count("/") + 1)])]
+            for c in sorted(set(reach)):
+                for f in CTX_FILES:
+                    for st in ("absent", "empty", "denied", "isdir"):
+                        yield {"kind": "ctx", "cgroups": w, "target": target, "ticks": 2, "faults": [{"cg": c, "file": f, "state": st}]}
+            # optional keys of memory.stat
+            for keep in ("anon 1\nfile 2\nshmem 3\n", "pgscan 7\n", "file 2\npgscan 7\n", "anon 1\npgscan 7\nshmem 0\n"):
+                yield {"kind": "ctx", "cgroups": w, "target": target, "ticks": 2,
+                       "faults": [{"cg": target, "file": "memory.stat", "state": "content", "content": keep}]}
+    n = {"quick": 300, "thorough": 8000, "search": 1500}[tier]
+    for _ in range(n):
+        w = ctx_world(rng.random() < 0.6)
+        target = rng.choice(["A/B/C", "A/B", "A/B", "A"])
+        fs, seen = [], set()
+        for _ in range(rng.randint(2, 6)):
+            c, f = rng.choice(sorted(w)), rng.choice(CTX_FILES)
+            if (c, f) in seen:
+                continue
+            seen.add((c, f))
+            fs.append({"cg": c, "file": f, "state": rng.choice(["absent", "empty", "denied", "isdir"])})
+        yield {"kind": "ctx", "cgroups": w, "target": target, "ticks": 2, "faults": fs}
+
+
 def gen(rng, tier):
+    yield from gen_ctx(rng, tier)
     # ---- reader level (exhaustive matrix) ----
     for r, good in READERS.items():
         for st in ("absent", "empty", "denied", "isdir"):
@@ -236,11 +293,21 @@ def nontrivial(s, t, v):
         return s["state"] != "content" or not s.get("wf")
     if s["kind"] == "tick":
         return bool(s["faults"]) or s["dtype_unknown"]
+    if s["kind"] == "ctx":
+        return bool(s["faults"])
     return True
 
 
 def bucket(s, t, v):
     b = [s["kind"]]
+    if s["kind"] == "ctx":
+        b.append("ctx:target-depth=%d" % (s["target"].count("/") + 1))
+        for f in s["faults"]:
+            b.append("ctx-fault:" + f["state"])
+        for row in t.get("ticks", []):
+            for k, c in row.items():
+                if c == "unavailable":
+                    b.append("ctx-unavailable:" + k)
     if s["kind"] == "reader":
         b.append("reader:%s" % t.get("r", t.get("outcome")))
     if s["kind"] == "tick":
@@ -254,6 +321,9 @@ def bucket(s, t, v):
 def classify(s, t, v):
     if s["kind"] == "reader":
         return "reader:%s:%s" % (s["reader"], s["state"])
+    if s["kind"] == "ctx":
+        vi = (v.get("violated") or ["accessor-model-differs"])[0]
+        return "ctx:" + vi
     if s["kind"] == "tick":
         what = t.get("what") or t.get("outcome", "")
         ops = "+".join(sorted({f["op"] for f in s["faults"]})) or ("dtype" if s["dtype_unknown"] else "nofault")
@@ -262,6 +332,11 @@ def classify(s, t, v):
 
 
 def shrink_candidates(s):
+    if s["kind"] == "ctx":
+        for i in range(len(s["faults"])):
+            yield dict(s, faults=s["faults"][:i] + s["faults"][i + 1:])
+        if s.get("ticks", 2) > 1:
+            yield dict(s, ticks=1)
     if s["kind"] == "tick":
         for i in range(len(s["faults"])):
             yield dict(s, faults=s["faults"][:i] + s["faults"][i + 1:])
